@@ -27,9 +27,35 @@ func newMemLogger() (*logging.MemLogger, *zap.Logger) {
 }
 
 func newMemLoggerAt(enab zapcore.LevelEnabler) (*logging.MemLogger, *zap.Logger) {
-	enc := zapcore.NewJSONEncoder(zap.NewProductionEncoderConfig())
+	enc := &flakyEncoder{Encoder: zapcore.NewJSONEncoder(zap.NewProductionEncoderConfig()), failNext: &c20failClone}
 	ml := logging.NewMemLogger(enc, enab)
 	return ml, zap.New(ml.GetCore())
+}
+
+// flakyEncoder is the buffer's encoder; while *failNext is set its Clone panics once (an encoder that cannot be copied
+// at that moment: the derivation fails, the caller contains the panic, the buffer has to stay usable).
+type flakyEncoder struct {
+	zapcore.Encoder
+	failNext *int32
+}
+
+var c20failClone int32
+
+func (f *flakyEncoder) Clone() zapcore.Encoder {
+	if atomic.CompareAndSwapInt32(f.failNext, 1, 0) {
+		panic("flakyEncoder: Clone refused")
+	}
+	return &flakyEncoder{Encoder: f.Encoder.Clone(), failNext: f.failNext}
+}
+
+// tryWith derives a logger and contains a panic of the derivation, as a recover middleware would.
+func tryWith(l *zap.Logger, fields ...zap.Field) (d *zap.Logger, panicked bool) {
+	defer func() {
+		if recover() != nil {
+			panicked = true
+		}
+	}()
+	return l.With(fields...), false
 }
 
 // snapshotDetail renders level and call fields of every retained entry ("id|level|n=<v>").
@@ -139,6 +165,18 @@ func c20sequential(c *fw.Ctx) {
 			names = append(names, fmt.Sprintf("d%d(with a logging field, from %s at write %d)", len(loggers)-1, names[parent], i))
 			events = append(events, fmt.Sprintf("@%d derive %s", i, names[len(names)-1]))
 			c.Count("derivations_with_a_field_that_logs", 1)
+			return
+		}
+		if r.Intn(8) == 0 {
+			// the derivation fails inside the encoder and the caller contains the panic: no logger comes out of it, and
+			// everything that exists keeps writing into and reading from the buffer (a lock left behind shows as a stall)
+			atomic.StoreInt32(&c20failClone, 1)
+			_, panicked := tryWith(loggers[parent], zap.Int("derived", len(loggers)))
+			atomic.StoreInt32(&c20failClone, 0)
+			if panicked {
+				c.Count("derivations_that_failed_inside_the_encoder", 1)
+			}
+			events = append(events, fmt.Sprintf("@%d failed derivation from %s", i, names[parent]))
 			return
 		}
 		d := loggers[parent].With(zap.Int("derived", len(loggers)), zap.String("at", fmt.Sprint(i)))
@@ -549,7 +587,7 @@ func init() {
 			"made of written ids, per-writer newest-first. Race reports are violations. non-trivial = history with at least one derived logger (sequential) / every concurrent run",
 		Cases: func(tier string) int { s, cc := c20layout(tier); return s + cc },
 		Run:   runC20,
-		Floors: map[string]int64{"sequential_histories": 4500, "histories_on_adjustable_level": 2000, "histories_on_a_coarse_clock": 1000, "derivations_with_a_field_that_logs": 300, "histories_with_the_buffer_beside_a_verbose_core": 1000, "level_changes": 20000, "writes_below_the_level": 100000, "snapshots_compared_in_detail": 20000, "held_snapshots_rechecked": 100000, "read_gap:capacity": 300, "read_gap:2xcapacity": 300, "read_gap:1": 200, "snapshots_compared": 10000, "derived_loggers": 5000, "histories_above_capacity": 1500, "concurrent_runs": 200, "concurrent_runs_above_capacity": 50,
+		Floors: map[string]int64{"sequential_histories": 4500, "histories_on_adjustable_level": 2000, "histories_on_a_coarse_clock": 1000, "derivations_with_a_field_that_logs": 300, "derivations_that_failed_inside_the_encoder": 300, "histories_with_the_buffer_beside_a_verbose_core": 1000, "level_changes": 20000, "writes_below_the_level": 100000, "snapshots_compared_in_detail": 20000, "held_snapshots_rechecked": 100000, "read_gap:capacity": 300, "read_gap:2xcapacity": 300, "read_gap:1": 200, "snapshots_compared": 10000, "derived_loggers": 5000, "histories_above_capacity": 1500, "concurrent_runs": 200, "concurrent_runs_above_capacity": 50,
 			"concurrent_runs_with_snapshots": 90, "entries_written": 3000000},
 		Assumptions: []string{"capacity is read from the exported constant logging.BufferSize", "a case in which writers or GetLogs/WriteLogs do not return for 120 s (normal: milliseconds) is reported as a violation: the buffer no longer returns its entries", "race freedom = no report from the Go race detector on the interleavings that occurred"},
 	})
